@@ -2,6 +2,6 @@ SPECIFICATION SpecMC
 CONSTANTS
   Plans <- PlanMCThorough
   Depth = 0
-INVARIANTS Inv_ParaLaws Inv_Loop Inv_JudgeSound Inv_JudgeSharp
+INVARIANTS Inv_ParaLaws Inv_Loop Inv_JudgeSound Inv_JudgeSharp Inv_PartsSharp Inv_PartsKept
 PROPERTIES Act_Pure
 CHECK_DEADLOCK FALSE
